@@ -190,6 +190,13 @@ def run(repo, chk):
     chk.expect(b'ap: .word stack_start' in ys and b'fp: .word stack_end' in ys, 'C18.D2', 'gen_lines::ap/fp initial values',
                'ap starts at the bottom and fp at the top of the stack region', GEN)
 
+    # the stack guards compare unsigned quantities with the unsigned mnemonics (a signed compare flips at fp-ap >= 2^(8w-1))
+    from . import c05
+    c05.run(repo, Remap(chk, {'C05.G1': 'C18.D2', 'C05.G2': 'C18.D2'}))
+    for cls, mnem in (('Hgeu', 'hgeu'), ('Hleu', 'hleu'), ('Hltu', 'hltu'), ('Hgtu', 'hgtu')):
+        chk.expect(gf.asm_code.get(cls) == mnem, 'C18.D2', f'asm.{cls}.code', f'{gf.asm_code.get(cls)!r}: stack guards must be emitted as '
+                   'unsigned comparisons, otherwise a run that fits a stack of S words fails at a larger S', 'hidc/codegen/asm.py')
+
     # ---------------- D3 --------------------------------------------------------------------
     n_opt = 0
     for rel, tree in repo.files.items():
